@@ -144,6 +144,14 @@ def main():
             for kind, zone, d in all_dts:
                 end = plus3(d)
                 rec["points"].append({"dt": enc_dt(d), "end": enc_dt(end), "obs": observe(oh, kind, zone, d, end)})
+                # mixed awareness of the two bounds of intervals(start, end): an aware start with a naive
+                # end (read as wall-clock time of the context, like every naive input) and a naive start
+                # with an end given in a third zone
+                try:
+                    end2 = end.replace(tzinfo=None) if d.tzinfo is not None else end.replace(tzinfo=ZoneInfo("America/Sao_Paulo"))
+                except Exception:  # noqa
+                    continue
+                rec["points"].append({"dt": enc_dt(d), "end": enc_dt(end2), "mixed": True, "obs": observe(oh, kind, zone, d, end2)})
             out.write(json.dumps(rec) + "\n"); n += 1
     # (C) validate and str/repr round trips
     for s in EXPRS + REPR_EXPRS + ["", " ", "Mo[6]", "\"", "Mo-Fr 10:00-18:00;Sa-Su 10:00-12:00", "PH +1 day", "(sunrise+00:30)-sunset", "10:00-12:00/30", "2030-2030/3",
